@@ -24,6 +24,14 @@ CLAIMED['C14'] = ('Coq theorems over Model/Clean.v (CleanDepTree, Clean._execute
          'proof: for every task table, selection and flag combination the cleaned list is exactly the specified set (named + sub-tasks; closure with --clean-dep / no positional; all with --clean-all), each task once, and for an acyclic table every dependent is cleaned before what it depends on whenever dependencies are included; --dry-run leaves fs and DB unchanged; --forget erases exactly the cleaned records; clean: True removes only existing target files and emptied directories, children first.  Effects of user clean-actions on files are outside the model',
          'trusted: Coq kernel; hand model Model/Clean.v tied by 343 (quick) / 3023 (thorough) cases through Clean._execute and DoitMain.run([clean ...]) incl. the 13 cases of tests/test_cmd_clean.py; fnmatch is an oracle; the task table is taken as TaskControl.__init__ leaves it',
          'DESIGN.md 5-C14')
+CLAIMED['C12'] = ('Coq theorems over Model/Select.v (TaskControl.__init__ dep expansion, _process_filter/_filter_tasks, default_tasks fallback, --single) by induction over the selection list and the task table + correspondence against TaskControl.process and DoitMain.run',
+         'proof: for every task table and selection list _filter_tasks returns exactly, in order, the named task / all glob matches in definition order / the producer of a target / the placeholders for delayed creators, and fails with InvalidCommand iff some element is none of these (so nothing is dispatched); default_tasks / all-tasks fallback; exact effect of --single; implicit task_dep complete after __init__.  NOT proved: the order in which the serial runner starts selected tasks (C12_serial_order) - checked on real runs only; two known findings (delayed sub-task never created; --single on a delayed sub-task)',
+         'trusted: Coq kernel; hand model Model/Select.v tied by 671 (quick) / 7511 (thorough) cases against TaskControl(...).process and in-process DoitMain runs; fnmatch / re.match / str.split are oracles tabulated per case',
+         'DESIGN.md 5-C12')
+CLAIMED['C15'] = ('Coq theorems over Model/Delayed.v (dispatcher with a growing task table, DelayedLoader copies, regex groups, serial runner) by invariants over the run + correspondence against load_tasks/TaskControl/Runner',
+         'proof: every creator is evaluated at most once in any run (any table, selection, fuel) and only after a final event of its `executed` task; created tasks become ordinary table entries; regex-target selection / found / missing cases (partial: progress and exactness of the executed set are checked by the oracle only); K3 (unknown delayed sub-task accepted) refuted by witness and recorded as known finding',
+         'trusted: Coq kernel; hand model Model/Delayed.v tied by 210 (quick) / 2400 (thorough) cases against the real loader, TaskControl.process and serial Runner (+ MThreadRunner and DoitMain samples judged by the oracle); creators are data (result of generate_tasks), string operations and Dependency are oracles; init_ok of the selected state is evaluated per case rather than proved in general',
+         'DESIGN.md 5-C15')
 NOT_YET = {}
 
 def main():
